@@ -255,13 +255,16 @@ Theorem C07_viterbi_forward_add_refuted : xadd XPInf XNInf = XNaN /\ tplus TPInf
 Proof. exact viterbi_forward_add_refuted. Qed.
 Print Assumptions C07_viterbi_forward_add_refuted.
 
-(** F24: a repeated output index makes [index_to_vaxis.pop(index)] raise KeyError (model: [pop_all]
-    fails), although the specification is defined for it; with distinct output indices it succeeds *)
-Theorem C07_viterbi_repeated_output_refuted :
-  pop_all [0; 0] [(0, Phys 1 2)] = None /\ out_consistent [0; 0] [1; 1] = true /\
-  pop_all [0] [(0, Phys 1 2)] = Some [].
-Proof. exact viterbi_repeated_output_refuted. Qed.
-Print Assumptions C07_viterbi_repeated_output_refuted.
+(** repeated output indices (F24, repaired in /repo 3f6a623; the model follows the repaired code):
+    popping the output indices only fails for an index that does not occur in the inputs, and
+    leaves exactly the entries of the summed-out indices; [C07_argmax] then applies as it stands
+    (its premise [cert_viterbi] holds for such runs, e.g. [repeated_output_example]: "ij->ii") *)
+Theorem C07_viterbi_repeated_output : forall output i2v,
+  (forall l, In l output -> lassoc l i2v <> None) ->
+  exists rest, pop_all output i2v = Some rest /\
+    forall le, In le rest <-> In le i2v /\ ~ In (fst le) output.
+Proof. exact pop_all_spec. Qed.
+Print Assumptions C07_viterbi_repeated_output.
 
 (** * the oracles of the check functions are sound *)
 (** the brute-force denotation used by the oracle is the denotation *)
